@@ -392,3 +392,528 @@ Proof.
         -- eapply NoDup_app_disjoint; eauto.
       * intros x sc Hin. apply HU. cbn [universe flat_map]. apply in_or_app. right. exact Hin.
 Qed.
+
+(* distinct claims of (p, n) reaching x total at most the coverage at x *)
+Lemma covf_full p n x c :
+  c_provider c = p -> c_sector c = n -> x <= c_tstart c + c_tmax c -> covf p n x c = c_size c.
+Proof.
+  intros <- <- Hx. unfold covf. rewrite !Z.eqb_refl. cbn.
+  destruct (x <=? _) eqn:E; [reflexivity|apply Z.leb_gt in E; lia].
+Qed.
+
+Lemma covf_nonneg p n x c : 0 <= c_size c -> 0 <= covf p n x c.
+Proof. intros H. unfold covf. destruct (_ && _); lia. Qed.
+
+Lemma mt_ok_le_cov cl p n x ids mt :
+  claim_sizes_ok cl -> NoDup ids -> mt_ok cl p n x ids mt -> mt <= cov cl p n x.
+Proof.
+  intros Hs Hnd (cs & HF & ->). unfold cov.
+  assert (Hk : NoDup (map (pair p) ids)) by (apply NoDup_map_pair; exact Hnd).
+  pose proof (del_all_msum (covf p n x) cl (map (pair p) ids) Hk) as Hd.
+  assert (Hnn : 0 <= msum (covf p n x) (del_all cl (map (pair p) ids))).
+  { apply msum_nonneg. intros k c Hc. apply del_all_lookup_Some in Hc. apply covf_nonneg. eapply Hs; eauto. }
+  assert (Hv : vsum (covf p n x) cl (map (pair p) ids) = sumZ (map c_size cs)).
+  { clear - HF. unfold vsum. rewrite map_map.
+    induction HF as [|i c r cs' (Hc & Hp & Hn & Hx) HF IH]; [reflexivity|].
+    cbn [map]. rewrite !sumZ_cons, IH, Hc. cbn. rewrite covf_full by assumption. reflexivity. }
+  lia.
+Qed.
+
+(* ---------- the coverage invariant ---------- *)
+Definition sector_cov (cl : gmap (Z * Z) claim) (now p n : Z) (s : sector) : Prop :=
+  s_terminated s = false -> s_simple s = true -> now < s_expiration s -> 0 < s_vweight s ->
+  exists space, s_vweight s = space * (s_expiration s - s_power_base s) /\
+                0 < s_expiration s - s_power_base s /\
+                space <= cov cl p n (s_expiration s).
+
+Definition decls_wf (ds : list edecl) : Prop :=
+  NoDup (flat_map decl_sectors ds) /\
+  NoDup (map sc_sector (flat_map ed_claims ds)) /\
+  Forall (fun sc => NoDup (sc_maintain sc ++ sc_drop sc)) (flat_map ed_claims ds).
+
+Lemma check_new_expiration_ok e x s :
+  check_new_expiration e x s = OK -> e <= s_expiration s /\ s_expiration s <= x.
+Proof.
+  unfold check_new_expiration. intros H. rinv H. apply Z.ltb_ge in E, E0. lia.
+Qed.
+
+(* one sector rewrite of an accepted extension re-establishes the coverage of that sector,
+   provided the (check, maintain) pair used for it is justified at the expiration used *)
+Lemma extend_one_cov cl now e p n x s spaces ds s' :
+  extend_one e x n s spaces ds = Ok s' ->
+  (forall chk mt, spaces !! n = Some (chk, mt) -> mt <= cov cl p n x) ->
+  sector_cov cl now p n s'.
+Proof.
+  unfold extend_one. intros H Hsp.
+  destruct (negb (check_new_expiration e x s =? OK)) eqn:Ek; [discriminate|].
+  apply negb_false_iff, Z.eqb_eq, check_new_expiration_ok in Ek as [He1 He2].
+  apply rbind_ok in H as (s1 & Hs1 & H).
+  destruct (x - e =? 0) eqn:Ez; [discriminate|]. apply Z.eqb_neq in Ez. injection H as <-.
+  destruct (s_simple s) eqn:Esim.
+  - unfold extend_simple in Hs1. destruct (0 <? s_vweight s) eqn:Ev.
+    + destruct (spaces !! n) as [[chk mt]|] eqn:Es; [|discriminate].
+      destruct (negb (chk =? _)); [discriminate|]. destruct (_ && _); [discriminate|].
+      injection Hs1 as <-. intros _ _ _ _. cbn. exists mt. splits; [reflexivity|lia|eapply Hsp; eauto].
+    + injection Hs1 as <-. apply Z.ltb_ge in Ev. intros _ _ _ Hpos. cbn in Hpos. lia.
+  - injection Hs1 as <-. intros _ Hsim. cbn in Hsim. discriminate.
+Qed.
+
+Lemma In_sortZ x l : In x (sortZ l) <-> In x l.
+Proof. apply sortZ_In. Qed.
+
+Lemma In_dedup_sorted x l : In x (dedup_sorted l) -> In x l.
+Proof.
+  induction l as [|a r IH]; cbn; [tauto|]. destruct r as [|b r'].
+  - tauto.
+  - destruct (a =? b); intros H.
+    + right. apply IH. exact H.
+    + destruct H as [->|H]; [left; reflexivity|right; apply IH; exact H].
+Qed.
+
+Lemma dedup_sorted_In x l : In x l -> In x (dedup_sorted l).
+Proof.
+  induction l as [|a r IH]; [tauto|]. destruct r as [|b r']; [tauto|].
+  intros [->|H]; cbn [dedup_sorted].
+  - destruct (x =? b) eqn:E.
+    + apply Z.eqb_eq in E. subst b. apply IH. left. reflexivity.
+    + left. reflexivity.
+  - destruct (a =? b); [apply IH; exact H|right; apply IH; exact H].
+Qed.
+
+Lemma decl_sectors_claims d sc : In sc (ed_claims d) -> In (sc_sector sc) (decl_sectors d).
+Proof.
+  intros H. unfold decl_sectors. apply dedup_sorted_In, In_sortZ, in_or_app. right. apply in_map. exact H.
+Qed.
+
+Lemma NoDup_flat_map_same {A B} (f : A -> list B) l a b x :
+  NoDup (flat_map f l) -> In a l -> In b l -> In x (f a) -> In x (f b) -> a = b.
+Proof.
+  induction l as [|c r IH]; cbn; intros Hnd Ha Hb Hxa Hxb; [destruct Ha|].
+  destruct (NoDup_app_parts _ _ Hnd) as [_ Hr].
+  destruct Ha as [->|Ha]; destruct Hb as [->|Hb]; auto.
+  - exfalso. eapply NoDup_app_disjoint; [exact Hnd|exact Hxa|]. apply in_flat_map. eauto.
+  - exfalso. eapply NoDup_app_disjoint; [exact Hnd|exact Hxb|]. apply in_flat_map. eauto.
+Qed.
+
+(* under decls_wf, the pair recorded for a sector is justified at the expiration of the (only)
+   declaration that names the sector *)
+Lemma spaces_justified cl p ds spaces d n :
+  claim_sizes_ok cl -> decls_wf ds -> spaces_ok cl p (universe ds) spaces ->
+  In d ds -> In n (decl_sectors d) ->
+  forall chk mt, spaces !! n = Some (chk, mt) -> mt <= cov cl p n (ed_new_exp d).
+Proof.
+  intros Hs (H1 & H2 & H3) Hok Hd Hn chk mt Hl.
+  destruct (Hok _ _ _ Hl) as (x & sc & HU & Hsec & Hmt).
+  unfold universe in HU. apply in_flat_map in HU as (d0 & Hd0 & Hin). apply in_map_iff in Hin as (sc0 & [= <- <-] & Hsc).
+  assert (d0 = d).
+  { eapply (NoDup_flat_map_same decl_sectors ds d0 d n); eauto. rewrite <- Hsec. apply decl_sectors_claims. exact Hsc. }
+  subst d0. apply (mt_ok_le_cov cl p n (ed_new_exp d) (sc_maintain sc0) mt Hs); [|exact Hmt].
+  rewrite Forall_forall in H3. specialize (H3 sc0).
+  assert (Hnd : NoDup (sc_maintain sc0 ++ sc_drop sc0)) by (apply H3; apply in_flat_map; eauto).
+  apply NoDup_app_parts in Hnd. tauto.
+Qed.
+
+Definition sectors_cov (cl : gmap (Z * Z) claim) (now : Z) (ss : gmap (Z * Z) sector) : Prop :=
+  forall q n s, ss !! (q, n) = Some s -> sector_cov cl now q n s.
+
+Lemma load_all_fst ss p ns olds : load_all ss p ns = Some olds -> map fst olds = ns.
+Proof.
+  revert olds. induction ns as [|n r IH]; intros olds H; cbn in H.
+  - injection H as <-. reflexivity.
+  - destruct (ss !! (p, n)); [|discriminate]. destruct (load_all ss p r) as [l|]; [|discriminate].
+    injection H as <-. cbn. f_equal. apply IH. reflexivity.
+Qed.
+
+Lemma extend_all_cov cl now e p x olds spaces ds news :
+  extend_all e x olds spaces ds = Ok news ->
+  (forall n, In n (map fst olds) -> forall chk mt, spaces !! n = Some (chk, mt) -> mt <= cov cl p n x) ->
+  Forall (fun nw => sector_cov cl now p (fst nw) (snd nw)) news.
+Proof.
+  revert news. induction olds as [|[n s] r IH]; intros news H Hsp; cbn [extend_all] in H.
+  - injection H as <-. constructor.
+  - apply rbind_ok in H as (s' & Hs' & H). apply rbind_ok in H as (more & Hmore & H). injection H as <-.
+    constructor.
+    + cbn. eapply extend_one_cov; [exact Hs'|]. apply Hsp. left. reflexivity.
+    + apply IH; [exact Hmore|]. intros n' Hn'. apply Hsp. right. exact Hn'.
+Qed.
+
+Lemma fold_insert_cov cl now p (news : list (Z * sector)) ss :
+  Forall (fun nw => sector_cov cl now p (fst nw) (snd nw)) news -> sectors_cov cl now ss ->
+  sectors_cov cl now (fold_left (fun m x => <[ (p, fst x) := snd x ]> m) news ss).
+Proof.
+  revert ss. induction news as [|nw r IH]; intros ss HF Hc; cbn [fold_left]; [exact Hc|].
+  inversion HF as [|? ? Hnw Hr]; subst. apply IH; [exact Hr|].
+  intros q n s Hl. destruct (decide ((q, n) = (p, fst nw))) as [[= -> ->]|Hne].
+  - rewrite lookup_insert in Hl. injection Hl as <-. exact Hnw.
+  - rewrite lookup_insert_ne in Hl by congruence. eapply Hc; eauto.
+Qed.
+
+Lemma In_group_by_deadline d ds seen all : In d (group_by_deadline ds seen all) -> In d all.
+Proof.
+  revert seen. induction ds as [|d0 r IH]; intros seen H; cbn in H; [destruct H|].
+  destruct (mem (ed_deadline d0) seen); [eapply IH; eauto|].
+  apply in_app_or in H as [H|H]; [apply filter_In in H; tauto|eapply IH; eauto].
+Qed.
+
+Lemma apply_decls_cov cl now e p spaces ds todo ss ss' :
+  apply_decls ss e p todo spaces ds = Ok ss' ->
+  claim_sizes_ok cl -> decls_wf ds -> spaces_ok cl p (universe ds) spaces ->
+  (forall d, In d todo -> In d ds) ->
+  sectors_cov cl now ss -> sectors_cov cl now ss'.
+Proof.
+  revert ss. induction todo as [|d rest IH]; intros ss H Hs Hwf Hok Hsub Hc; cbn [apply_decls] in H.
+  - injection H as <-. exact Hc.
+  - destruct (load_all ss p (decl_sectors d)) as [olds|] eqn:El; [|discriminate].
+    apply rbind_ok in H as (news & Hnews & H).
+    destruct (existsb _ olds); [discriminate|].
+    apply IH in H; auto.
+    + intros d' Hd'. apply Hsub. right. exact Hd'.
+    + apply fold_insert_cov; [|exact Hc].
+      eapply extend_all_cov; [exact Hnews|].
+      intros n Hn chk mt Hl. rewrite (load_all_fst _ _ _ _ El) in Hn.
+      eapply spaces_justified; eauto. apply Hsub. left. reflexivity.
+Qed.
+
+Lemma extend2_cov st e c p ds st' now :
+  extend2 st e c p ds = Ok st' -> decls_wf ds -> claim_sizes_ok (claims (reg (vr st))) ->
+  sectors_cov (claims (reg (vr st))) now (sectors st) ->
+  vr st' = vr st /\ ctrl st' = ctrl st /\ sectors_cov (claims (reg (vr st'))) now (sectors st').
+Proof.
+  unfold extend2. intros H Hwf Hs Hc.
+  apply rbind_ok in H as (spaces & Hv & H).
+  destruct (negb (is_ctrl _ _ _)); [discriminate|].
+  apply rbind_ok in H as (ss & Ha & H). injection H as <-. cbn. splits; auto.
+  eapply apply_decls_cov; eauto.
+  - destruct Hwf as (_ & H2 & _).
+    eapply (validate_decls_ok _ _ (universe ds)); eauto.
+    intros n0 chk mt Hl. rewrite lookup_empty in Hl. discriminate.
+  - intros d Hd. eapply In_group_by_deadline; eauto.
+Qed.
+
+(* ---------- the invariant and its preservation ---------- *)
+Record cinv (st : cstate) (now : Z) : Prop := {
+  ci_reg : reg_inv (vr st);
+  ci_sizes : sizes_ok (reg (vr st));
+  ci_cov : sectors_cov (claims (reg (vr st))) now (sectors st);
+  ci_world : world_ok (wld (vr st));
+}.
+
+Lemma sector_cov_mono e cl cl' now now' q n s :
+  claims_le e cl cl' -> claim_sizes_ok cl -> claim_sizes_ok cl' -> e <= now' -> now <= now' ->
+  sector_cov cl now q n s -> sector_cov cl' now' q n s.
+Proof.
+  intros Hle Hs Hs' He Hn Hc H1 H2 H3 H4.
+  destruct (Hc H1 H2 ltac:(lia) H4) as (space & Hv & Hd & Hsp).
+  exists space. splits; auto.
+  pose proof (cov_mono e cl cl' q n (s_expiration s) Hle Hs Hs' ltac:(lia)). lia.
+Qed.
+
+Lemma sectors_cov_mono e cl cl' now now' ss :
+  claims_le e cl cl' -> claim_sizes_ok cl -> claim_sizes_ok cl' -> e <= now' -> now <= now' ->
+  sectors_cov cl now ss -> sectors_cov cl' now' ss.
+Proof. intros Hle Hs Hs' He Hn Hc q n s Hl. eapply sector_cov_mono; eauto. Qed.
+
+Definition cop_epoch (o : cop) : Z :=
+  match o with
+  | Vr x => op_epoch x
+  | Onboard e _ _ _ _ | Extend2 e _ _ _ | Terminate e _ _ _ _ => e
+  end.
+
+Definition cop_wf (o : cop) : Prop :=
+  match o with
+  | Vr x => op_caller x <> VR
+  | Extend2 _ _ _ ds => decls_wf ds
+  | _ => True
+  end.
+
+Lemma group_new_claims_err al p e s x cs k : group_new_claims al p e s x cs = Err k -> k <> OK.
+Proof.
+  induction cs as [|c r IH]; cbn; [discriminate|].
+  destruct (al !! _); [|intros [= <-]; discriminate].
+  destruct (negb _); [intros [= <-]; discriminate|].
+  destruct (group_new_claims al p e s x r) eqn:E; cbn; [discriminate|].
+  intros [= <-]. apply IH. reflexivity.
+Qed.
+
+Lemma claim_single st e p g st' r ev :
+  claim_allocations st e p [g] true = Ok (st', r, ev) ->
+  exists news,
+    Forall2 (group_ok (allocs (reg st)) p e (sg_sector g) (sg_expiry g)) (sg_claims g) news /\
+    NoDup (map fst news) /\ (forall nn, In nn news -> claims (reg st) !! (p, fst nn) = None) /\
+    claims (reg st') = put_new p (claims (reg st)) news.
+Proof.
+  unfold claim_allocations. intros H. destruct (negb (is_miner _ _)); [discriminate|].
+  apply rbind_ok in H as (acc & Hpg & H). cbn [process_groups ca_allocs ca_claims ca_evs] in Hpg.
+  destruct (group_new_claims _ _ _ _ _ _) as [news|k] eqn:Eg.
+  - unfold rbind in Hpg.
+    destruct (apply_new_claims _ _ _ _ _ _) as [[[[cl al] space] ev0]|] eqn:Ea; [|discriminate].
+    injection Hpg as <-. cbn in H. apply rbind_ok in H as (t1 & _ & H). injection H as <- _ _. cbn.
+    apply group_new_claims_spec in Eg. apply apply_new_claims_spec in Ea as (Hnd & Habs & -> & _).
+    exists news. splits; auto.
+  - injection Hpg as <-. cbn in H. apply group_new_claims_err in Eg.
+    destruct (k =? OK) eqn:Ek; [apply Z.eqb_eq in Ek; contradiction|]. cbn in H. discriminate.
+Qed.
+
+Lemma cov_put_new cl p news q n x :
+  NoDup (map fst news) -> (forall nn, In nn news -> cl !! (p, fst nn) = None) ->
+  cov (put_new p cl news) q n x = cov cl q n x + sumZ (map (fun nn => covf q n x (snd nn)) news).
+Proof.
+  revert cl. induction news as [|nn r IH]; intros cl Hnd Habs.
+  - unfold sumZ; cbn. lia.
+  - cbn [map] in Hnd. inversion Hnd as [|? ? Hn Hnd']; subst. rewrite put_new_cons, IH.
+    + unfold cov. rewrite msum_insert_new by (apply Habs; left; reflexivity).
+      cbn [map]. rewrite sumZ_cons. lia.
+    + exact Hnd'.
+    + intros m Hm. rewrite lookup_insert_ne; [apply Habs; right; exact Hm|].
+      intros [= Heq]. apply Hn. rewrite Heq. apply in_map. exact Hm.
+Qed.
+
+Lemma cov_nonneg cl q n x : claim_sizes_ok cl -> 0 <= cov cl q n x.
+Proof. intros Hs. apply msum_nonneg. intros k c Hc. apply covf_nonneg. eapply Hs; eauto. Qed.
+
+Lemma onboard_inv st e p n x cs st' ev now :
+  onboard st e p n x cs = Ok (st', ev) -> cinv st now -> cinv st' (Z.max now e).
+Proof.
+  unfold onboard. intros H [Ir Is Ic Iw].
+  destruct (sectors st !! (p, n)) eqn:Esec; [discriminate|].
+  apply rbind_ok in H as ([[v' r] ev0] & Hca & H). injection H as <- <-.
+  set (g := {| sg_sector := n; sg_expiry := x; sg_claims := cs |}) in *.
+  assert (Hex : exec (vr st) (ClaimAllocs e p [g] true) = Ok (v', r, ev0)) by exact Hca.
+  destruct (inv_claim _ _ _ _ _ _ _ _ Hca Ir) as [Ir' Hw'].
+  pose proof (exec_sizes _ _ _ _ _ Hex Ir Is) as Is'.
+  destruct (exec_claims_le _ _ _ _ _ Hex Ir) as [_ Hext]. specialize (Hext eq_refl).
+  assert (Hle : claims_le (Z.max now e) (claims (reg (vr st))) (claims (reg v'))).
+  { intros k c Hk. left. apply Hext. exact Hk. }
+  constructor; cbn [vr sectors ctrl]; auto; [|rewrite Hw'; exact Iw].
+  intros q m s Hl. destruct (decide ((q, m) = (p, n))) as [[= -> ->]|Hne].
+  - rewrite lookup_insert in Hl. injection Hl as <-. intros _ _ Hnow Hpos. cbn in *.
+    destruct (claim_single _ _ _ _ _ _ _ Hca) as (news & HF & Hnd & Habs & Hcl). cbn [g sg_sector sg_expiry sg_claims] in HF.
+    assert (Hsz : sumZ (map ac_size cs) = sumZ (map (fun nn => c_size (snd nn)) news) /\
+                  Forall (fun nn => covf p n x (snd nn) = c_size (snd nn) /\ 0 <= c_size (snd nn)) news).
+    { clear - HF Is. destruct Is as [Sa _]. induction HF as [|c nn r rn Hok HF IH]; [split; [reflexivity|constructor]|].
+      destruct IH as [IH1 IH2]. destruct Hok as (Hid & a & Ha & Hcan & Hsn).
+      apply can_claim_alloc_spec in Hcan as (_ & _ & _ & Hsize & _ & Hlife).
+      cbn [map]. rewrite !sumZ_cons, IH1, Hsn. cbn. split; [lia|]. constructor; [|exact IH2].
+      rewrite Hsn. split; [apply covf_full; cbn; auto; lia|cbn; eapply Sa; eauto]. }
+    destruct Hsz as [Hsum Hfull].
+    assert (Hspace : 0 <= sumZ (map ac_size cs)).
+    { rewrite Hsum. clear - Hfull. induction Hfull as [|nn r [_ H] HF IH]; [unfold sumZ; cbn; lia|].
+      cbn [map]. rewrite sumZ_cons. lia. }
+    exists (sumZ (map ac_size cs)). splits; [reflexivity|nia|].
+    rewrite Hcl, cov_put_new by assumption.
+    assert (Heq : sumZ (map (fun nn => covf p n x (snd nn)) news) = sumZ (map (fun nn => c_size (snd nn)) news)).
+    { clear - Hfull. induction Hfull as [|nn r [H _] HF IH]; [reflexivity|]. cbn [map]. rewrite !sumZ_cons, IH, H. reflexivity. }
+    pose proof (cov_nonneg (claims (reg (vr st))) p n x (proj2 Is)). lia.
+  - rewrite lookup_insert_ne in Hl by congruence.
+    apply (sector_cov_mono (Z.max now e) (claims (reg (vr st))) (claims (reg v')) now (Z.max now e));
+      [exact Hle|apply Is|apply Is'|lia|lia|]. eapply Ic; eauto.
+Qed.
+
+Lemma vr_step_inv st x now :
+  op_caller x <> VR -> cinv st now ->
+  cinv {| vr := fst (step (vr st) x); sectors := sectors st; ctrl := ctrl st |} (Z.max now (op_epoch x)).
+Proof.
+  intros Hc [Ir Is Ic Iw]. unfold step.
+  destruct (exec (vr st) x) as [[[v' r] ev]|k] eqn:E; cbn [fst].
+  - destruct (exec_inv _ _ _ _ _ E Iw Hc Ir) as [Ir' Hw'].
+    pose proof (exec_sizes _ _ _ _ _ E Ir Is) as Is'.
+    destruct (exec_claims_le _ _ _ _ _ E Ir) as [Hle Hext].
+    constructor; cbn [vr sectors ctrl]; auto; [|rewrite Hw'; exact Iw].
+    apply (sectors_cov_mono (op_epoch x) (claims (reg (vr st))) (claims (reg v')) now (Z.max now (op_epoch x))); [exact Hle|apply Is|apply Is'|lia|lia|exact Ic].
+  - constructor; cbn [vr sectors ctrl]; auto.
+    apply (sectors_cov_mono (Z.max now (op_epoch x)) (claims (reg (vr st))) (claims (reg (vr st))) now (Z.max now (op_epoch x))); [apply claims_le_refl|apply Is|apply Is|lia|lia|exact Ic].
+Qed.
+
+Lemma cstep_inv st o now : cop_wf o -> cinv st now -> cinv (fst (cstep st o)) (Z.max now (cop_epoch o)).
+Proof.
+  intros Hwf I. destruct o as [x|e p n x cs|e c p ds|e c p n mu]; cbn [cstep cop_epoch cop_wf] in *.
+  - destruct (step (vr st) x) as [v' r] eqn:Es. cbn [fst].
+    replace v' with (fst (step (vr st) x)) by (rewrite Es; reflexivity). apply vr_step_inv; assumption.
+  - destruct (onboard st e p n x cs) as [[st' ev]|k] eqn:E; cbn [fst].
+    + eapply onboard_inv; eauto.
+    + destruct I as [Ir Is Ic Iw]. constructor; auto.
+      apply (sectors_cov_mono (Z.max now e) (claims (reg (vr st))) (claims (reg (vr st))) now (Z.max now e)); [apply claims_le_refl|apply Is|apply Is|lia|lia|exact Ic].
+  - destruct I as [Ir Is Ic Iw].
+    assert (Ic' : sectors_cov (claims (reg (vr st))) (Z.max now e) (sectors st)).
+    { apply (sectors_cov_mono (Z.max now e) (claims (reg (vr st))) (claims (reg (vr st))) now (Z.max now e)); [apply claims_le_refl|apply Is|apply Is|lia|lia|exact Ic]. }
+    destruct (extend2 st e c p ds) as [st'|k] eqn:E; cbn [fst].
+    + destruct (extend2_cov _ _ _ _ _ _ _ E Hwf (proj2 Is) Ic') as (Hv & _ & Hc).
+      constructor; rewrite ?Hv; auto. rewrite Hv in Hc. exact Hc.
+    + constructor; auto.
+  - destruct I as [Ir Is Ic Iw].
+    assert (Ic' : sectors_cov (claims (reg (vr st))) (Z.max now e) (sectors st)).
+    { apply (sectors_cov_mono (Z.max now e) (claims (reg (vr st))) (claims (reg (vr st))) now (Z.max now e)); [apply claims_le_refl|apply Is|apply Is|lia|lia|exact Ic]. }
+    destruct (terminate st c p n mu) as [st'|k] eqn:E; cbn [fst]; [|constructor; auto].
+    unfold terminate in E. rinv E. injection E as <-. constructor; cbn [vr sectors ctrl]; auto.
+    intros q m s' Hl. destruct (decide ((q, m) = (p, n))) as [[= -> ->]|Hne].
+    + rewrite lookup_insert in Hl. injection Hl as <-. intros Ht. cbn in Ht. discriminate.
+    + rewrite lookup_insert_ne in Hl by congruence. eapply Ic'; eauto.
+Qed.
+
+Definition max_epoch (now : Z) (ops : list cop) : Z := fold_left (fun a o => Z.max a (cop_epoch o)) ops now.
+
+Lemma cinit_inv w c : world_ok w -> cinv (cinit w c) 0.
+Proof.
+  intros Hw. constructor; cbn; auto.
+  - apply init_inv.
+  - split; intros k x; cbn; rewrite lookup_empty; discriminate.
+  - intros q n s. rewrite lookup_empty. discriminate.
+Qed.
+
+Lemma crun_inv st now ops : Forall cop_wf ops -> cinv st now -> cinv (crun st ops) (max_epoch now ops).
+Proof.
+  revert st now. induction ops as [|o r IH]; intros st now Hwf I; [exact I|].
+  inversion Hwf as [|? ? Ho Hr]; subst.
+  change (crun st (o :: r)) with (crun (fst (cstep st o)) r).
+  change (max_epoch now (o :: r)) with (max_epoch (Z.max now (cop_epoch o)) r).
+  apply IH; [exact Hr|]. apply cstep_inv; assumption.
+Qed.
+
+(* the strongest true form of "verified weight is backed by claims" *)
+Theorem verified_weight_backed_modulo_malformed_declarations w c ops :
+  world_ok w -> Forall cop_wf ops ->
+  let st := crun (cinit w c) ops in
+  forall p n s, sectors st !! (p, n) = Some s ->
+    s_terminated s = false -> s_simple s = true -> max_epoch 0 ops < s_expiration s -> 0 < s_vweight s ->
+    exists space, s_vweight s = space * (s_expiration s - s_power_base s) /\
+                  0 < s_expiration s - s_power_base s /\
+                  space <= cov (claims (reg (vr st))) p n (s_expiration s).
+Proof.
+  intros Hw Hwf st p n s Hl. apply (ci_cov _ _ (crun_inv _ _ _ Hwf (cinit_inv w c Hw)) p n s Hl).
+Qed.
+
+(* ---------- reachable registry states (no decls_wf needed) ---------- *)
+Definition cop_caller_ok (o : cop) : Prop := match o with Vr x => op_caller x <> VR | _ => True end.
+
+Lemma cstep_reg_inv st o :
+  cop_caller_ok o -> world_ok (wld (vr st)) -> reg_inv (vr st) ->
+  reg_inv (vr (fst (cstep st o))) /\ wld (vr (fst (cstep st o))) = wld (vr st).
+Proof.
+  intros Hc Hw I. destruct o as [x|e p n x cs|e c p ds|e c p n mu]; cbn [cstep cop_caller_ok] in *.
+  - destruct (step (vr st) x) as [v' r] eqn:Es. cbn.
+    replace v' with (fst (step (vr st) x)) by (rewrite Es; reflexivity). apply step_inv; assumption.
+  - destruct (onboard st e p n x cs) as [[st' ev]|k] eqn:E; cbn [fst]; [|auto].
+    unfold onboard in E. destruct (sectors st !! (p, n)); [discriminate|].
+    apply rbind_ok in E as ([[v' r] ev0] & Hca & E). injection E as <- _. cbn.
+    eapply inv_claim; eauto.
+  - destruct (extend2 st e c p ds) as [st'|k] eqn:E; cbn [fst]; [|auto].
+    unfold extend2 in E. apply rbind_ok in E as (sp & _ & E). destruct (negb _); [discriminate|].
+    apply rbind_ok in E as (ss & _ & E). injection E as <-. auto.
+  - destruct (terminate st c p n mu) as [st'|k] eqn:E; cbn [fst]; [|auto].
+    unfold terminate in E. rinv E. injection E as <-. auto.
+Qed.
+
+Lemma crun_reg_inv st ops :
+  Forall cop_caller_ok ops -> world_ok (wld (vr st)) -> reg_inv (vr st) ->
+  reg_inv (vr (crun st ops)) /\ wld (vr (crun st ops)) = wld (vr st).
+Proof.
+  revert st. induction ops as [|o r IH]; intros st Hc Hw I; [auto|].
+  inversion Hc as [|? ? Ho Hr]; subst.
+  change (crun st (o :: r)) with (crun (fst (cstep st o)) r).
+  destruct (cstep_reg_inv st o Ho Hw I) as [I' Hw'].
+  destruct (IH (fst (cstep st o)) Hr) as [I'' Hw'']; [rewrite Hw'; exact Hw|exact I'|].
+  split; [exact I''|congruence].
+Qed.
+
+Definition cop_removes_claims (o : cop) : bool := match o with Vr x => removes_claims x | _ => false end.
+
+(* a claim's maximum term never decreases, nothing else about it ever changes, and it can leave
+   the table only through RemoveExpiredClaims at or after the end of its term *)
+Theorem claim_evolution st o st' out k c :
+  cstep st o = (st', out) -> reg_inv (vr st) -> claims (reg (vr st)) !! k = Some c ->
+  (exists c', claims (reg (vr st')) !! k = Some c' /\ c' = with_tmax c (c_tmax c') /\ c_tmax c <= c_tmax c') \/
+  (claims (reg (vr st')) !! k = None /\ cop_removes_claims o = true /\
+   c_tstart c + c_tmax c <= cop_epoch o).
+Proof.
+  intros H I Hk.
+  assert (Hsame : vr st' = vr st ->
+     exists c', claims (reg (vr st')) !! k = Some c' /\ c' = with_tmax c (c_tmax c') /\ c_tmax c <= c_tmax c').
+  { intros ->. exists c. split; [exact Hk|]. split; [destruct c; reflexivity|lia]. }
+  assert (Hexec : forall x v' r ev, exec (vr st) x = Ok (v', r, ev) -> vr st' = v' -> cop_epoch o = op_epoch x ->
+            cop_removes_claims o = removes_claims x ->
+     (exists c', claims (reg (vr st')) !! k = Some c' /\ c' = with_tmax c (c_tmax c') /\ c_tmax c <= c_tmax c') \/
+     (claims (reg (vr st')) !! k = None /\ cop_removes_claims o = true /\ c_tstart c + c_tmax c <= cop_epoch o)).
+  { intros x v' r ev E -> He Hr. destruct (exec_claims_le _ _ _ _ _ E I) as [Hle Hext].
+    destruct (removes_claims x) eqn:Erm.
+    - destruct (Hle k c Hk) as [(c' & Hc' & He1 & He2)|[Hn Hexp]].
+      + left. exists c'. auto.
+      + right. unfold claim_expiration in Hexp. rewrite Hr, He. auto.
+    - left. destruct (Hext eq_refl k c Hk) as (c' & Hc' & He1 & He2). exists c'. auto. }
+  destruct o as [x|e p n x cs|e c0 p ds|e c0 p n mu]; cbn [cstep] in H.
+  - unfold step in H. destruct (exec (vr st) x) as [[[v' r] ev]|kk] eqn:E.
+    + injection H as <- _. eapply Hexec; eauto.
+    + injection H as <- _. left. apply Hsame. reflexivity.
+  - destruct (onboard st e p n x cs) as [[s1 ev]|kk] eqn:E; injection H as <- _; [|left; apply Hsame; reflexivity].
+    unfold onboard in E. destruct (sectors st !! (p, n)); [discriminate|].
+    apply rbind_ok in E as ([[v' r] ev0] & Hca & E). injection E as <- _.
+    eapply (Hexec (ClaimAllocs e p [_] true)); eauto.
+  - destruct (extend2 st e c0 p ds) as [s1|kk] eqn:E; injection H as <- _; left; apply Hsame; [|reflexivity].
+    unfold extend2 in E. apply rbind_ok in E as (sp & _ & E). destruct (negb _); [discriminate|].
+    apply rbind_ok in E as (ss & _ & E). injection E as <-. reflexivity.
+  - destruct (terminate st c0 p n mu) as [s1|kk] eqn:E; injection H as <- _; left; apply Hsame; [|reflexivity].
+    unfold terminate in E. rinv E. injection E as <-. reflexivity.
+Qed.
+
+(* ---------- dropping claims only at the end of a sector's life ---------- *)
+Theorem drop_only_at_end_of_life e x n s spaces ds s' :
+  extend_one e x n s spaces ds = Ok s' -> s_simple s = true -> 0 < s_vweight s ->
+  let old_space := s_vweight s / (s_expiration s - s_power_base s) in
+  exists check maintain,
+    spaces !! n = Some (check, maintain) /\ check = old_space /\
+    s_vweight s' = maintain * (x - e) /\ s_power_base s' = e /\ s_expiration s' = x /\
+    e <= s_expiration s <= x /\ e < x /\
+    (maintain <> check -> s_expiration s - e <= END_OF_LIFE_CLAIM_DROP_PERIOD).
+Proof.
+  unfold extend_one. intros H Hsim Hpos.
+  destruct (negb (check_new_expiration e x s =? OK)) eqn:Ek; [discriminate|].
+  apply negb_false_iff, Z.eqb_eq, check_new_expiration_ok in Ek as [He1 He2].
+  apply rbind_ok in H as (s1 & Hs1 & H).
+  destruct (x - e =? 0) eqn:Ez; [discriminate|]. apply Z.eqb_neq in Ez. injection H as <-.
+  rewrite Hsim in Hs1. unfold extend_simple in Hs1.
+  destruct (0 <? s_vweight s) eqn:Ev; [|apply Z.ltb_ge in Ev; lia].
+  destruct (spaces !! n) as [[chk mt]|] eqn:Es; [|discriminate].
+  destruct (negb (chk =? _)) eqn:Ec; [discriminate|]. apply negb_false_iff, Z.eqb_eq in Ec.
+  destruct (negb (chk =? mt) && _) eqn:Ed; [discriminate|].
+  injection Hs1 as <-. cbn. exists chk, mt. splits; auto; try lia.
+  all: intros Hne; apply andb_false_iff in Ed as [Ed|Ed];
+    [apply negb_false_iff, Z.eqb_eq in Ed; congruence|apply Z.ltb_ge in Ed; exact Ed].
+Qed.
+
+(* an accepted extension never shortens a sector *)
+Theorem extension_never_shortens e x n s spaces ds s' :
+  extend_one e x n s spaces ds = Ok s' ->
+  s_expiration s <= s_expiration s' /\ s_expiration s' = x /\ s_activation s' = s_activation s /\
+  s_power_base s' = e.
+Proof.
+  unfold extend_one. intros H.
+  destruct (negb (check_new_expiration e x s =? OK)) eqn:Ek; [discriminate|].
+  apply negb_false_iff, Z.eqb_eq, check_new_expiration_ok in Ek as [He1 He2].
+  apply rbind_ok in H as (s1 & Hs1 & H). destruct (x - e =? 0); [discriminate|]. injection H as <-.
+  destruct (s_simple s).
+  - unfold extend_simple in Hs1. destruct (0 <? s_vweight s).
+    + destruct (spaces !! n) as [[chk mt]|]; [|discriminate]. destruct (negb _); [discriminate|].
+      destruct (_ && _); [discriminate|]. injection Hs1 as <-. cbn. auto.
+    + injection Hs1 as <-. cbn. auto.
+  - injection Hs1 as <-. cbn. auto.
+Qed.
+
+(* onboarding: the sector's verified weight is the claimed space times its lifetime, every claim
+   starts at the activation epoch and the sector's expiration lies within the claim's term *)
+Theorem onboard_terms st e p n x cs st' ev id :
+  onboard st e p n x cs = Ok (st', ev) -> In (EvClaim id) ev ->
+  exists s c,
+    sectors st' !! (p, n) = Some s /\ s_activation s = e /\ s_expiration s = x /\ s_power_base s = e /\
+    s_vweight s = sumZ (map ac_size cs) * (x - e) /\
+    claims (reg (vr st')) !! (p, id) = Some c /\ c_sector c = n /\ c_provider c = p /\ c_tstart c = e /\
+    c_tstart c + c_tmin c <= x <= c_tstart c + c_tmax c /\
+    claims (reg (vr st)) !! (p, id) = None.
+Proof.
+  unfold onboard. intros H Hin. destruct (sectors st !! (p, n)); [discriminate|].
+  apply rbind_ok in H as ([[v' r] ev0] & Hca & H). injection H as <- <-.
+  set (g := {| sg_sector := n; sg_expiry := x; sg_claims := cs |}) in *.
+  assert (Hstep : step (vr st) (ClaimAllocs e p [g] true) = (v', {| code := OK; ret := r; evs := ev0 |})).
+  { unfold step. cbn [exec]. rewrite Hca. reflexivity. }
+  destruct (claim_conditions _ _ _ _ _ _ _ id Hstep Hin) as (_ & _ & g0 & ac & a & Hg & Hac & Hid & Ha & H1 & H2 & H3 & H4 & H5 & H6 & Hcl & _ & Hnone).
+  destruct Hg as [<-|[]]. cbn [g sg_sector sg_expiry] in *.
+  eexists _, _. cbn [sectors vr]. rewrite lookup_insert. splits; try reflexivity; eauto; cbn; lia.
+Qed.
